@@ -637,7 +637,9 @@ def minimize_lbfgsb(
                     np.copy(x),
                     OptimizeResult(
                         fun=f0,
-                        jac=grad,
+                        # a copy, as for x: grad is the array the run goes on with (and
+                        # the newest entry of G), the state belongs to the user
+                        jac=np.copy(grad),
                         nfev=sf.nfev,
                         njev=sf.ngev,
                         nit=istate.nit + 1,
